@@ -36,7 +36,7 @@ func (t *twinCacheInst) Apply(ev int, check bool) (string, string) {
 	for k := 0; k < NKC; k++ {
 		if _, has := pa[k]; !has {
 			t.m.Ent[k] = CEntry{}
-		} else if !t.m.Ent[k].P {
+		} else if !t.m.Ent[k].P && pa[k].E >= 0 {
 			// the model is only a key: keep it in step with what twin A really holds
 			t.m.Ent[k] = CEntry{V: int32(pa[k].V), E: pa[k].E, P: true}
 		}
